@@ -12,1045 +12,1091 @@ Definition show_fres (r : fres) : string :=
   end.
 Definition check (rs : list rune) : string := digest (show_fres (format_res rs)).
 Definition full (rs : list rune) : string := show_fres (format_res rs).
-Eval vm_compute in ("<<<M386>>>" ++ check (runes_of_ascii "options {
-    StringPrefixLenType = u16;
-    ArrayPrefixLenType = u16;
-}
-
-packet SampleBinary {
-    uint16 MsgType `" ++ [28040; 24687; 31867; 22411]%N ++ runes_of_ascii "`,
-    u16 BodyLenght @lengthOf(Body) `" ++ [28040; 24687; 20307; 38271; 24230]%N ++ runes_of_ascii "`,
-    match MsgType as Body {
-        1 : Logon,
-        2 : Logout,
-        3 : Heartbeat,
-        4 : RiskControlRequest,
-        5 : RiskControlResponse,
-    },
-    @calculatedFrom(""CRC32"")
-    u32 Ckecksum `" ++ [26657; 39564; 21644]%N ++ runes_of_ascii "`,
-}
-
-packet Logon {
-    @leftPad('0')
-    char[10] UserName `" ++ [29992; 25143; 21517]%N ++ runes_of_ascii "`,
-    string Password `" ++ [23494; 30721]%N ++ runes_of_ascii "`,
-    uint64 ClientId `" ++ [23458; 25143; 31471]%N ++ runes_of_ascii "ID`,
-    u16 HeartbeatInterval `" ++ [24515; 36339; 38388; 38548]%N ++ runes_of_ascii "`,
-}
-
-packet Logout {
-    @rightPad('0')
-    char[10] UserName `" ++ [29992; 25143; 21517]%N ++ runes_of_ascii "`,
-    uint64 ClientId `" ++ [23458; 25143; 31471]%N ++ runes_of_ascii "ID`,
-}
-
-packet Heartbeat {
-}
-
-packet RiskControlRequest {
-    string UniqueOrderId `" ++ [21807; 19968; 35746; 21333; 21495]%N ++ runes_of_ascii "`,
-    char[16] ClOrdID `" ++ [23458; 25143; 35746; 21333; 21495]%N ++ runes_of_ascii "`,
-    char[3] MarketID `" ++ [24066; 22330]%N ++ runes_of_ascii "id`,
-    char[12] SecurityID `" ++ [35777; 21048; 20195; 30721]%N ++ runes_of_ascii "`,
-    char Side `" ++ [20080; 21334; 26041; 21521]%N ++ runes_of_ascii "`,
-    char OrderType `" ++ [35746; 21333; 31867; 22411]%N ++ runes_of_ascii "`,
-    u64 Price `" ++ [20215; 26684]%N ++ runes_of_ascii "`,
-    u32 Qty `" ++ [25968; 37327]%N ++ runes_of_ascii "`,
-    repeat string ExtraInfo `" ++ [38468; 21152; 20449; 24687]%N ++ runes_of_ascii "`,
-    repeat SubOrder {
-        char[16] ClOrdID `" ++ [23376; 35746; 21333; 21495]%N ++ runes_of_ascii "`,
-        u64 Price `" ++ [23376; 35746; 21333; 20215; 26684]%N ++ runes_of_ascii "`,
-        u32 Qty `" ++ [23376; 35746; 21333; 25968; 37327]%N ++ runes_of_ascii "`,
-    },
-}
-
-packet RiskControlResponse {
-    string UniqueOrderId `" ++ [21807; 19968; 35746; 21333; 21495]%N ++ runes_of_ascii "`,
-    i32 Status `" ++ [29366; 24577]%N ++ runes_of_ascii "`,
-    string Msg `" ++ [32467; 26524; 20449; 24687]%N ++ runes_of_ascii "`,
-    repeat Detail,
-}
-
-packet Detail {
-    string RuleName `" ++ [35268; 21017; 21517; 31216]%N ++ runes_of_ascii "`,
-    u16 Code `" ++ [21407; 22240; 20195; 30721]%N ++ runes_of_ascii "`,
-}")).
-Eval vm_compute in ("<<<M149>>>" ++ check (runes_of_ascii "// trailing space 
-packet
-    charz {	@calculatedFrom( ""1""
-)match x
-as tag
-    {	[
-7 , // @lengthOf(
-0
-, 65535	,
-    // `tick` ""quote"" 'q'
-    ""it's""/// triple
-,0
-    ,
-""x y"", 255 ] :tag  , [ ""1"" // a // b
-, //	t
-3  , 007, // " ++ [27880; 37322]%N ++ runes_of_ascii "
-255 ,  ""x y""
-    // @lengthOf(
-    ] :pack ,[""" ++ [233]%N ++ runes_of_ascii "t" ++ [233]%N ++ runes_of_ascii """	, 7  , 10  , 3
-, 0
-    , ""a\""b"" ] :
-    // packet A { u8 x, }
-    leftPad, [ 65535
-    // " ++ [27880; 37322]%N ++ runes_of_ascii "
-    ,
-""x y""]
-: chars [ ""\n"" ,65535 , ""a\\""
-] :
-A	, ""\n"" :
-    lengthOf , } ,
-match string_
-    as	i8i8 { 7 :msg_type , // c
-""abc"" :
-tag ,""a\""b"" :metadata, 255
-    : matchKey	,
-    [""CRC32"" ,""1""
-// " ++ [27880; 37322]%N ++ runes_of_ascii "
-// " ++ [128512]%N ++ runes_of_ascii " emoji
-, 007 , ""packet"" ,""a\\"" /// triple
-,	""a\""b""
-    // " ++ [128512]%N ++ runes_of_ascii " emoji
-    , 007 , 4294967296 ] : lengthOf , }
-,uint16
-pack , string Pad@lengthOf( o ) `say ""hi""` ,repeat i8 body
-    ,
-@lengthOf( //x
-crc ) float64 body `// not a comment`
-, repeat rootA { int16 x_y_z `tab	here` ,
-falsey @calculatedFrom( ""{,}"" ), trueish @lengthOf(
-crc) `{ , }` , }
-, match Pad as
-Header
-{
-    4294967296: Header,""\n"" :msg_type,""a	b"" :
-    x_y_z
+Eval vm_compute in ("<<<M100>>>" ++ check (runes_of_ascii "options
+/// triple
+//
+{matchKey	= true ;	packetx =uint32; metadata =int64
+    ;Packet = float64 _x= // @lengthOf(
+""" ++ [233]%N ++ runes_of_ascii "t" ++ [233]%N ++ runes_of_ascii """}root packet asx { @rightPad (
+'\x00')
+@calculatedFrom( """" //
+)  @tag( 4294967296)msg_type { repeat
+zchar[ 65535 ]charz `{ , }`  , char
+roots ,T { rootA
+len ,
+    } ,repeat u128  `u8 x,`
     , }
-,
-    //	t
-    Logon
-, } 	 ")).
-Eval vm_compute in ("<<<M1559>>>" ++ check (runes_of_ascii "
-
-  options 
-{
-    FixedStringPadFromLeft
-
-=
-true  ;FixedStringPadChar =
-'0' ;
-
-} packet
-
-    Leg {
-	repeat	InSym93
-{ zchar[
-    3 ]
-
-    Acct 
-,
-
-    string	Side2
-	,
-i32 Flags
-
-, 
-f32
-Note ,i32
-    msgKind
-,
-} , 
-f64 Note
-
-    , uint16 Px
-    ,}
-packet
-Quote
-{zchar[2 ]
-    OrderId 
-,
-
-}packet Ack
-	{
-
-repeat
-
-string lastPx 
-,
-	zchar[ 
-4
-
-    ]  price
-	,
-    uint32
-OrderId
-
-, Quote
-,
-	int8
-
-Acct	, 
-}	packet Fill	{  repeat Leg,
-
-@rightPad
-	('0'
-
-    )	char[ 11 
-]	Note
-, f64 Px
-, @rightPad
-
-(
-'\x00'
-
-    )char[ 5	]Flags
-
-,  zchar[9
-	]	x
-
-    ,
-	string	msgKind , 
-}
-	root  packet
-Order
-{
-Leg
-    ,
-    repeat
-
-    Ack  ,
-    @rightPad(	'\x00'	) 
-char[
-3 ]
-
-Side2 ,repeat
-	char[  1 ] seqNo
-,
-    u16
-clOrdID 
-,  match clOrdID
-    as
-Body{ 198
-:  Leg
-
-    , 23
-    : Quote ,
-
-    13 :
-
-Ack	, 159
-: Fill,
-	}
-    , u32	venue	@calculatedFrom( ""CR\
-C32""	)
-
-,
-
-} ")).
-Eval vm_compute in ("<<<M141>>>" ++ check (runes_of_ascii "options // @lengthOf(
-{zchar = char[] Z9_	='0' ;
-} options
-{ asx = char[] }root packet leftPad { T @lengthOf(
-    f32a//
-)
-, } //
-root
-//x
-// @lengthOf(
-packet calculatedFrom {
-u
-    {//	t
-char[] // packet A { u8 x, }
-T `" ++ [233]%N ++ runes_of_ascii "`	,	match stringy /// triple
-as //	t
-chars { [
-    0123456789 ]
-: T ,
+    ,  }
+    root packet	MetaDataX{ // c
+char[ 4294967296
+]
+    Z9_// `tick` ""quote"" 'q'
+,lengthOf// c
+rootA `{ , }`,@rightPad ( '0'
+    ) zchar[	00
+]i8i8 ,	char[
+1
+]a1	,
+    // c
+    float32 crc  `
+` , Z9_
+    { f32a {
+    float32//
+len, f32a{ char[
+0 ]// " ++ [27880; 37322]%N ++ runes_of_ascii "
+pack@calculatedFrom( ""it's"" )
+, T @lengthOf(// 50% %s
+f32a )
+// c
 // `tick` ""quote"" 'q'
-// " ++ [27880; 37322]%N ++ runes_of_ascii "
-}	, uint16 a1 @lengthOf( x) , string
-chars `two words` ,
-} , @calculatedFrom(
-    ""x y"")char[]
-// " ++ [27880; 37322]%N ++ runes_of_ascii "
+, i64 lengthOf// " ++ [128512]%N ++ runes_of_ascii " emoji
+@calculatedFrom(  ""x y"") , zchar[ 4294967296
+]	As @calculatedFrom(  ""x y""
+    )
+    , }
+    , } ,  repeat	calculatedFrom {  repeat Packet { x
+    ,  } ,}
+, u8x{ metadata
+@calculatedFrom(
+    ""1"" )
+    // 50% %s
+    , repeat zchar[ // a // b
+65535 ]  Z9_ ,
 // " ++ [128512]%N ++ runes_of_ascii " emoji
-body @lengthOf(
-lengthOf )
-    /// triple
-    ,
-    @lengthOf(	A	)rootA
-,	@lengthOf(i64_ ) // packet A { u8 x, }
-repeat f32a { lengthOf
-    // " ++ [128512]%N ++ runes_of_ascii " emoji
-    charz // a // b
-`" ++ [28040; 24687; 31867; 22411]%N ++ runes_of_ascii "`, }
-    // packet A { u8 x, }
-    ,
-match tag as
-//x
-//	t
-T { [
-3
-] : falsey , }	,zchar[
-    00
-    ] charz@lengthOf(
-    Pad
+// a // b
+} , match As as  repeatCount { 65535 : roots ,
+""packet""
+: uint8x ,
+3 :
+A,
+""{,}"" :
+    leftPad,} , } , @calculatedFrom( // trailing space 
+""// no comment"" ) repeat stringy asx , char[] MetaDataX@lengthOf(
+// " ++ [128512]%N ++ runes_of_ascii " emoji
+// packet A { u8 x, }
+A ), @rightPad	('0' ) @leftPad
+    ( ' ' )	Z9_ @calculatedFrom( ""a\""b"" ) , match// packet A { u8 x, }
+o	as repeatCount {[3 , 0123456789 ]
+:
+    // c
+    string_ ,  4294967296 :
+    Logon , 7 :o	, } ,
+    }
+    packet body {} 	 ")).
+Eval vm_compute in ("<<<M258>>>" ++ check (runes_of_ascii "packet
+Packet { @rightPad (  )
+match calculatedFrom
+    as zchar {""abc"" : leftPad ,  0123456789:
+    BodyLength , ""// no comment"":	Packet } , @tag(
+    0123456789
+)
+    zchar[ 0]
+    _x @lengthOf(
+u128 ) ,
+    @calculatedFrom( ""`tick`""
+)	options1 {
+// a // b
+// trailing space 
+zchar @calculatedFrom(""CRC32""
 ) ,
-@tag( 3	) lengthOf{ i16 As ,
-} ,
-} root
-packet	body{ }
+i64
+A
+@lengthOf(string_ )// " ++ [128512]%N ++ runes_of_ascii " emoji
+`two words` , float
+// @lengthOf(
+// trailing space 
+@calculatedFrom(
+// c
+// trailing space 
+""{,}"" ) `crlf
+line` ,
+repeat char[ 00/// triple
+]
+_x , } ,
+    @leftPad( ' '
+) char[	255
+] options1 ,  @tag( 0123456789
+)repeat MetaDataX { //
+BodyLength { As , } , o `say ""hi""`
+    ,
+match asx //x
+as string_{ ""a	b"" :Logon ,// `tick` ""quote"" 'q'
+}, } ,	@rightPad	( // `tick` ""quote"" 'q'
+) match  o as T//
+{ 007
+    :
+    body	, 10 :o 10 : i8i8	, } , @rightPad ( '0'	)@rightPad (  '\x00' )
+    @leftPad ( '\x00' ) int8 tag `" ++ [28040; 24687; 31867; 22411]%N ++ runes_of_ascii "`
+, i64 falsey, @lengthOf( u8x )
+    repeat Packet	{ char[] x_y_z , repeat
+    f32 Packet ,crc @lengthOf( Foo )// a // b
+, } // 50% %s
+,//	t
+@calculatedFrom(	""{,}"" )
+    // a // b
+    @lengthOf(metadata ) @lengthOf( i8i8  ) // `tick` ""quote"" 'q'
+int64	options1 @calculatedFrom(""CRC32"" /// triple
+)	`say ""hi""`
+    ,
+    }
 ")).
-Eval vm_compute in ("<<<M1879>>>" ++ check (runes_of_ascii "MetaData len {
-    i8 _x ``,
-    zchar[00] tag,
-    roots u,
-    uint16 repeatCount,
-    msg_type tag,
+Eval vm_compute in ("<<<M1471>>>" ++ check (runes_of_ascii "options {
+    packetx = 42;
 }
 
-packet x_y_z {
-    metadata {
-        i8i8 chars,
-        i64 chars,
+root packet falsey {
+    @tag(1)
+    crc {
+        repeat char[007] charz `it's`,
+        repeat u8 len `
+                `,
+        crc trueish,
     },
-    repeat u16 asx,
+    match float as string_ {
+        ""x y"" : zchar,
+        """ ++ [128512]%N ++ runes_of_ascii """ : string_,
+        ""CRC32"" : options1,
+        [""1""] : crc,
+        ""packet"" : options1,
+        [
+            42, ""a	b"", """ ++ [233]%N ++ runes_of_ascii "t" ++ [233]%N ++ runes_of_ascii """, ""abc"", 0123456789,
+            ""{,}"", 00, """ ++ [233]%N ++ runes_of_ascii "t" ++ [233]%N ++ runes_of_ascii """
+        ] : asx,
+    },
+    repeat f64 charz,
+    @tag(10)
+    repeat charz Logon,
+    @lengthOf(u8x)
+    @calculatedFrom(""a\""b"")
+    @rightPad(' ')
+    u8 a1 `u8 x,`,
 }
 
-packet u8x {
-    @lengthOf(BodyLength)
-    @leftPad()
-    float `
-    `,
-    @calculatedFrom(""// no comment"")
-    float32 chars `// not a comment`,
-    uint32 u128,
-    @tag(0)
-    int16 tag,
-    leftPad msg_type,// trailing space 
-    pack `tab	here`,
-    @lengthOf(repeatCount)
-    zchar[4294967296] len,
-    i32 packetx `tab	here`,
-    calculatedFrom,
-    metadata @calculatedFrom(""// no comment""),
+packet falsey {
+    repeat char[] zchar,
+    @tag(255)
+    @calculatedFrom(""`tick`"")
+    char[] asx `say ""hi""`,
+    u8 As `u8 x,`,// 50% %s
+    zchar[00] uint8x @lengthOf(zchar),
+    char[255] uint8x,
+    Pad @lengthOf(_x) `" ++ [233]%N ++ runes_of_ascii "`,
+    _x,
+    @rightPad(' ')
+    uint16 BodyLength,
+    @lengthOf(int)
+    metadata tag,
+    int64 string_ `
+        `,
+}
+
+root packet o {
 }
 
 options {
-    // trailing space 
-    options1 = 42;
-    i64_ = char[]
-    falsey = 42// a // b
-    Packet = true;
 }")).
-Eval vm_compute in ("<<<M1831>>>" ++ check (runes_of_ascii "
-packet
-	leftPad
-	{
-match
-	A as 
-x 
+Eval vm_compute in ("<<<M1878>>>" ++ check (runes_of_ascii "
+MetaData 
+BodyLength
+
+    {
+}packet
+
+x_y_z {	@lengthOf(
+	roots
+    )
+
+A{ // " ++ [128512]%N ++ runes_of_ascii " emoji
+	repeat	zchar[0123456789]
+Z9_ `a\`
+
+,
+    }	, }
+options 	 // packet A { u8 x, }
 {
-    ""`tick`""  :
-MetaDataX  //
-      ,[
+Pad
+=	""x y""
+;	// trailing space 
 
-    ""it's"",
+trueish  = 
+true
 
-    ""\n"" ,""" ++ [28040; 24687]%N ++ runes_of_ascii """  ]
+    body
+	=	3
+; 
+matchKey
+
+=
+true //x
+  ;
+    i64_	=
+	char[]
+;
+} packet
+	Packet	{
+
+    char[] 
+  // " ++ [128512]%N ++ runes_of_ascii " emoji
+  // `tick` ""quote"" 'q'
+
+  float
+
+    @calculatedFrom(""`tick`"") ,
+
+char[] charz @calculatedFrom(""abc"")  ,
+    match As
+
+    as 
+	// packet A { u8 x, }
+      asx// @lengthOf(
+    {
+
+    [
+    """ ++ [28040; 24687]%N ++ runes_of_ascii """
+, ""`tick`""
+,
+""{,}""
+,
+	""{,}""	, ""a	b""
+
+    // " ++ [27880; 37322]%N ++ runes_of_ascii "
+
+,
+1 ,
+""\" ++ [233]%N ++ runes_of_ascii """ 
+]	:
+
+rootA
+, 255  :asx
+
+42 
+:
+a1
+
+    ,42 :x_y_z""""
+    :msg_type ,
+    7 
+:
+    f32a, }, @leftPad 
+( '0' ) repeatCount crc
+    `// not a comment`,
+	@lengthOf(
+    MetaDataX 
+) 
+float64 falsey@calculatedFrom(
+	""\" ++ [233]%N ++ runes_of_ascii """
+
+) 
+`" ++ [233]%N ++ runes_of_ascii "`
+,
+
+    }
+")).
+Eval vm_compute in ("<<<M242>>>" ++ check (runes_of_ascii "/// triple
+packet
+    falsey
+{ } packet Logon { @tag( // @lengthOf(
+1 ) // c
+body a1 ,repeat BodyLength,repeat Foo
+    { match
+rootA as x { [3 ]
     :
+    //
+    i8i8 }
+    , match charz as // a // b
+charz {007	: Packet , [ ""// no comment"" ] // trailing space 
+:/// triple
+A
+    ,
+    [ 10 ]
+: float
+,
+[ ""`tick`"" , 10 ]
+:
+    int
+,  } ,
+    }
+    ,// " ++ [27880; 37322]%N ++ runes_of_ascii "
+repeat u8x , asx{int32 Packet
+    @calculatedFrom(
+// 50% %s
+// a // b
+""// no comment""),},
+    @lengthOf( leftPad ) int8 float
+//
+// @lengthOf(
+@calculatedFrom( ""CRC32"" ), lengthOf// packet A { u8 x, }
+{ char[65535] string_ @calculatedFrom( """") // a // b
+,} ,len @calculatedFrom( """ ++ [233]%N ++ runes_of_ascii "t" ++ [233]%N ++ runes_of_ascii """	),	@lengthOf( As)
+char[ 1 ]
+BodyLength// " ++ [27880; 37322]%N ++ runes_of_ascii "
+,
+    } // a // b")).
+Eval vm_compute in ("<<<M78>>>" ++ check (runes_of_ascii "root packet
+crc{	MetaDataX @calculatedFrom(
+// " ++ [128512]%N ++ runes_of_ascii " emoji
+//
+""// no comment"" ), // " ++ [27880; 37322]%N ++ runes_of_ascii "
+@calculatedFrom("""" )
+    // trailing space 
+    len metadata// @lengthOf(
+,@tag( 0 )
+// `tick` ""quote"" 'q'
+// c
+char As `doc`
+,@lengthOf(// `tick` ""quote"" 'q'
+crc
+// c
+//	t
+)repeat
+    leftPad
+    // a // b
+    { repeat chars
+    u8x`// not a comment` ,
+uint8x{ repeat char[
+    10 ] crc,options1 ,},
+// " ++ [128512]%N ++ runes_of_ascii " emoji
+// trailing space 
+match  leftPad
+    as
+Packet{ ""// no comment"": chars , [42 ,
+0 ]
+: a1
+    // c
+    ""\n"" : len // `tick` ""quote"" 'q'
+,3 : // " ++ [128512]%N ++ runes_of_ascii " emoji
+Header} , char[]
+options1
+@lengthOf( //	t
+f32a ) `
+` ,}
+    , // a // b
+}
+")).
+Eval vm_compute in ("<<<M59>>>" ++ check (runes_of_ascii "packet int{/// triple
+lengthOf , // " ++ [27880; 37322]%N ++ runes_of_ascii "
+match x_y_z
+as
+    trueish{  [
+""it's""
+, 0123456789 ] : i64_ , } , @tag( 255)
+@leftPad // " ++ [27880; 37322]%N ++ runes_of_ascii "
+(// packet A { u8 x, }
+'0' )
+options1@calculatedFrom(
+""1""
+    )
+`
+` , // @lengthOf(
+@leftPad ( '\x00') // packet A { u8 x, }
+len @lengthOf( rootA
+    ) , i64_ packetx ,
+    @tag( 42
+)	int32/// triple
+trueish ,
+i8 options1 `two words`,  @leftPad( '0'
+) char[
+1
+] calculatedFrom `tab	here`
+,	@lengthOf(o )
+    @tag(
+007 // 50% %s
+) u8
+_x	@calculatedFrom(
+    ""`tick`"") , repeatCount @lengthOf( MetaDataX)
+    , /// triple
+}
+")).
+Eval vm_compute in ("<<<M185>>>" ++ check (runes_of_ascii "packet metadata { Header// @lengthOf(
+u128 ,
+} packet zchar{/// triple
+@tag(
+4294967296 ) @lengthOf( a1 ) i8
+_x `crlf
+line`, @lengthOf( _x
+) match
+    x_y_z as
+    Packet
+    {0 : leftPad, 65535 : tag 00 :leftPad,  ""a\\"" : Packet ,  10 :
+    o,  [ ""CRC32""
+    ]
+    :
+    float // " ++ [128512]%N ++ runes_of_ascii " emoji
+,
+}
+    , match stringy
+as calculatedFrom {""`tick`"" :rootA  , ""`tick`"" : asx
+// packet A { u8 x, }
+/// triple
+,3 :
+u128 ,
+} ,@lengthOf(
+msg_type
+)
+@tag(
+10 )// 50% %s
+repeatCount@lengthOf(string_
+    ) `a\` , }
+")).
+Eval vm_compute in ("<<<M1923>>>" ++ check (runes_of_ascii "options { LittleEndian
 
-string_
+    =
+
+false  ; StringPrefixLenType	=
+    u16;	FixedStringPadFromLeft=  true  ;FixedStringPadChar 
+= '0' ;
+
+}  packet	Fill
+	{ }root
+packet Order {
+	repeat
+Fill, char[] clOrdID
+	,
+    @rightPad(  '\x00'
+
+    ) char[
+
+    4
+    ] lastPx ,char[]
+
+OrderId ,
+
+int8	tag7
+, 
+u8
+
+    f1
+, u16 count  @lengthOf(
+
+    Body)
+
+    ,match
+f1 as
+
+Body {
+    [  159
+,	49 ]:
+
+    Fill
+	,
+
+}
+
+    ,u16 
+Tail@calculatedFrom(
+
+""CR\
+C32"")  ,
+}
+")).
+Eval vm_compute in ("<<<M1413>>>" ++ check (runes_of_ascii "  packet  NewOrder
+
+{
+
+    u32 qty, 
+}
+    packet 
+Cancel {
+
+u64 id ,
+	}	packet
+Business
+
+    {
+u8  Kind , match
+	Kind	as  Detail
+	{1
+
+    :NewOrder
 ,
 
-    0123456789
-:	o
-,[ ""{,}""
+2
+
+: Cancel  ,
+    },
+    } packet 
+TcpFrame
+    {	u8
+T
 ,
 
-    ""x y""	]
+    match	T
+	as
+
+    Body
+{	1
 	:
 
-    uint8x	}
+Business	, 
+} ,  } packet
+UdpFrame{ u8
+U ,
+    match	U as Body
+{
+	1 : 
+Business
+	, } ,
+Business	extra,}root
+	packet	Wire {
 
-,
-	char[
-3 
-]
+    TcpFrame
 
-msg_type 	 // " ++ [128512]%N ++ runes_of_ascii " emoji
-@lengthOf(
+    ,UdpFrame
 
-    u
-    //	t
-
-	// " ++ [27880; 37322]%N ++ runes_of_ascii "
-
-)	`two words` 
-,
-
-    // c
-    repeat
-int 
-// packet A { u8 x, }
-  // @lengthOf(
-		Foo
-,	@rightPad 
-(
-	)@rightPad
-	( ' '
-) Foo 
-charz
-`{ , }`	,
-} 
-MetaData
-	A
-
-{ zchar[  0
-	]A
-
-`{ , }` 
-,  float32 
-a1
-	    //
-	,  char[] 
-pack
-    , 	 /// triple
-  string
-body`" ++ [233]%N ++ runes_of_ascii "`
-
-    ,
-
-string
-chars`doc` 
-, int
-
-_x
-
-    `two words` 
-,
-}options
-
-    { Z9_
-=
-
-    uint16
-;
+    ,  } ")).
+Eval vm_compute in ("<<<M1712>>>" ++ check (runes_of_ascii "packet _x {
+    calculatedFrom @lengthOf(roots) `it's`,
+    match metadata as BodyLength {
+        [
+            10, 10, ""a\""b"", """", ""\n"",
+            ""a\\"", 4294967296
+        ] : u,
+    },
+    repeat i64_ Packet `{ , }`,// packet A { u8 x, }
+    @tag(65535)
+    char[] float `crlf
+        line`,
+    char[7] x @calculatedFrom(""{,}""),
+    @leftPad()
+    u64 stringy @calculatedFrom(""\" ++ [233]%N ++ runes_of_ascii """),
 }
-")).
-Eval vm_compute in ("<<<M260>>>" ++ check (runes_of_ascii "packet metadata{ @rightPad
-    (	) zchar[
+
+packet A {
+}")).
+Eval vm_compute in ("<<<M1715>>>" ++ check (runes_of_ascii "MetaData chars {
+    char[] f32a `" ++ [28040; 24687; 31867; 22411]%N ++ runes_of_ascii "`,
+    zchar[255] calculatedFrom,// @lengthOf(
+    a1 metadata,
+    // a // b
+    u i64_ `
+    `,
+    A asx `100% of %d`,
+}
+
+// `tick` ""quote"" 'q'
+MetaData int {
+    char[] As `// not a comment`,
+}
+
+MetaData Header {
+    int16 charz,
+    uint64 u8x,
+    string zchar,
+    float64 options1 `// not a comment`,
+    uint64 stringy,
+}")).
+Eval vm_compute in ("<<<M97>>>" ++ check (runes_of_ascii "packet o { @rightPad ( '\x00') @calculatedFrom(
+    ""a\""b""
+) @rightPad ( '0') char[// trailing space 
+255] zchar
+@calculatedFrom(
+""\" ++ [233]%N ++ runes_of_ascii """ ) ,
+char[
+// 50% %s
 //	t
-// `tick` ""quote"" 'q'
-0123456789] i64_
-    // @lengthOf(
-    @calculatedFrom( ""\n"" ) , @leftPad (
-    ' '// " ++ [27880; 37322]%N ++ runes_of_ascii "
-) zchar[ // `tick` ""quote"" 'q'
-255
+10 /// triple
 ]
-    MetaDataX `{ , }`// a // b
-, @rightPad (
-' ' )@calculatedFrom(""abc"" ) // " ++ [128512]%N ++ runes_of_ascii " emoji
-@lengthOf(
-matchKey
-// `tick` ""quote"" 'q'
-// `tick` ""quote"" 'q'
+    _x  `" ++ [28040; 24687; 31867; 22411]%N ++ runes_of_ascii "`,
+}	options {	}options{ Pad='0' ;} packet
+i64_ { repeat string // " ++ [128512]%N ++ runes_of_ascii " emoji
+zchar , @calculatedFrom( """"
+)	@lengthOf( Packet
 )
-repeat char[ 42 ] packetx // packet A { u8 x, }
-`" ++ [233]%N ++ runes_of_ascii "` ,  trueish@calculatedFrom( ""packet"" )
-`a\` , matchKey int `" ++ [28040; 24687; 31867; 22411]%N ++ runes_of_ascii "` ,	@tag(
-    // c
-    0
-) len{ char[65535 ] Header,
-}
-,@lengthOf( f32a ) zchar[	10  ]
-    trueish `crlf
-line` ,  }
-")).
-Eval vm_compute in ("<<<M1370>>>" ++ check (runes_of_ascii "options {
-    StringPrefixLenType = u8;
-    ArrayPrefixLenType = u8;
-    FixedStringPadFromLeft = false;
-    FixedStringPadChar = ' ';
-}
-packet Ack {
-    char[] tag7,
-}
-packet Reject {
-    InSym61 {
-        repeat Ack,
-        zchar[4] f1,
-    },
-}
-packet Logout {
-    char[4] clOrdID,
-}
-root packet Cancel {
-    @leftPad(' ') char[10] price,
-    u8 x,
-    u32 venue @lengthOf(Body),
-    match x as Body {
-        [92, 175] : Logout,
-        26 : Reject,
-        144 : Ack,
-    },
-    u16 count @calculatedFrom(""CR\
-C32""),
-}
-")).
-Eval vm_compute in ("<<<M1622>>>" ++ check (runes_of_ascii "
-
-  // top
-	packet  // c0
-
-B // c1a
-	  // c1b
-    { // c2
-    	u8	// c3a
-
-	// c3b
-  	a// c4
-,
-
-    } // c6
-
-root	// c7a
-  // c7b
-  	packet // c8a
-  // c8b
-	  P  {// c10
-    u8
-        // c11
-  	K ,	// c13
-      u8	// c14a
-    // c14b
-  L// c15a
-// c15b
-  @lengthOf(  // c16a
-		// c16b
-
-  Body)
-// c18
-  	,	match  // c20
-	K
-
-as 	 // c22a
-// c22b
-  Body  
-  // c23
-	  {
-    1
-    :
-	    // c26
-B// c27
-    , 
-}
-    // c29
-, 
-  // c30
-	}
-        // c31
-")).
-Eval vm_compute in ("<<<M68>>>" ++ check (runes_of_ascii "
-packet
-    Header {  match roots  as packetx
-// " ++ [27880; 37322]%N ++ runes_of_ascii "
-//	t
-{
-    // `tick` ""quote"" 'q'
-    [
-""" ++ [28040; 24687]%N ++ runes_of_ascii """ ,
-    0123456789 ]:packetx,
-//
+    f32a
 // c
-4294967296
-    : Logon ,	[ ""\n""
-    ,""x y"" , // " ++ [128512]%N ++ runes_of_ascii " emoji
-""packet"" , ""packet"" ] : i8i8 , 42 // `tick` ""quote"" 'q'
-:Foo
-    ,
-}, //	t
-@calculatedFrom( ""x y""	) f64 Logon ,} options
-    {
-    // " ++ [128512]%N ++ runes_of_ascii " emoji
-    chars=
-' '
-    ; repeatCount =
-""" ++ [233]%N ++ runes_of_ascii "t" ++ [233]%N ++ runes_of_ascii """ x	= ""\n"" ; calculatedFrom = ""`tick`"" //x
-; }
+// " ++ [27880; 37322]%N ++ runes_of_ascii "
+,}
 ")).
-Eval vm_compute in ("<<<M303>>>" ++ check (runes_of_ascii "  packet
-    tag{ } packet
-    //
-    packetx { @calculatedFrom( ""x y""
-    )@tag(
-    42 )
-@lengthOf(
-    As  ) char a1`two words` ,
-    @leftPad
+Eval vm_compute in ("<<<M1559>>>" ++ check (runes_of_ascii "  options
+
+    {  falsey=
+
+    42 } options	{ A
+=
+	0123456789
+; options1 =
+    ""// no comment""
+o
+    =  ""// no comment"" 
+; 
+u8x	=
+
+    // 50% %s
+  // 50% %s
+	true 
+;  }
+
+root
+	packet Z9_ // " ++ [128512]%N ++ runes_of_ascii " emoji
+  { 
+}
+	root  packet o { 
+@tag(65535 )	repeat
+    f32
+    Logon
+`100% of %d` 
+,
+
+    }
+")).
+Eval vm_compute in ("<<<M1906>>>" ++ check (runes_of_ascii "
+options	{
+i8i8
+    = ""\n""
+Header
+
+=	""x y""; 	 /// triple
+
+}root
+
+packet
+
+    A	{
+    match
+charz
+    as T{ 
+
+//
+	0
+:  // trailing space 
+  options1 // `tick` ""quote"" 'q'
+  } 
+,  } packet
+	float  /// triple
+	{ @rightPad
+
 (
-    '\x00' )
-    @tag(10)
-@lengthOf( u)
-    char[] falsey // " ++ [128512]%N ++ runes_of_ascii " emoji
-,
-    // " ++ [27880; 37322]%N ++ runes_of_ascii "
-    }//
-MetaData
-f32a {
-    string u128 , roots
-    stringy , Header body,
-    float options1
-    //	t
-    `it's`
-    ,	i8i8 options1
-`" ++ [28040; 24687; 31867; 22411]%N ++ runes_of_ascii "`
-    ,
-}")).
-Eval vm_compute in ("<<<M1919>>>" ++ check (runes_of_ascii "// top
-options {
-    // c1
-    zchar = true;
-    // c5
-    Pad = char[00]
-    // c10
-    a1 = uint32
-    // c13
-    BodyLength = true;
-    // c17
-}
 
-// c18
-root packet T {
-    // c22
-    @lengthOf(repeatCount)
-    // c25
-    @tag(1)
-    // c28
-    @calculatedFrom(""a	b"")
-    // c31
-    string stringy @calculatedFrom(""\n"") `u8 x,`,
-    // c38
-}
-// c39")).
-Eval vm_compute in ("<<<M1452>>>" ++ check (runes_of_ascii "options {
-    u = 7
-    // " ++ [27880; 37322]%N ++ runes_of_ascii "
-    roots = zchar[65535]
-    msg_type = """ ++ [233]%N ++ runes_of_ascii "t" ++ [233]%N ++ runes_of_ascii """;
-    x = false
-}
+)
 
-MetaData string_ {
-    char[42] i8i8 `" ++ [28040; 24687; 31867; 22411]%N ++ runes_of_ascii "`,
-    u8 x_y_z,
-    packetx lengthOf ``,
-    T Header `line1
-        line2`,
-    char[] u8x `two words`,
-}
-
-packet float {
-    calculatedFrom,
-    @rightPad('0')
-    char[3] u128,
-}")).
-Eval vm_compute in ("<<<M182>>>" ++ check (runes_of_ascii "root packet int {match MetaDataX	as charz
-{ 255 :uint8x , 65535 : // @lengthOf(
-u128 ""\" ++ [233]%N ++ runes_of_ascii """
-:o,0123456789 : _x ""{,}"" :
-    matchKey
-// `tick` ""quote"" 'q'
-// `tick` ""quote"" 'q'
-[4294967296 ,"""" ,	10
-    ]: charz , }	, @lengthOf( roots
-) x @calculatedFrom( ""\n"" )
-    , i32
-    tag , }")).
-Eval vm_compute in ("<<<M202>>>" ++ check (runes_of_ascii "packet Z9_
-    { @calculatedFrom( ""packet"") char //
-BodyLength , match chars as falsey {[65535,
+    repeat metadata 
+`u8 x,`,  }
+")).
+Eval vm_compute in ("<<<M99>>>" ++ check (runes_of_ascii "packet stringy	{ //x
+repeat char[ 0123456789
     // c
-    """ ++ [128512]%N ++ runes_of_ascii """ ,""" ++ [28040; 24687]%N ++ runes_of_ascii """ , ""`tick`""  , 10,
-    ""a\\"" ,""a\""b"" // @lengthOf(
-]: repeatCount , ""x y"" :chars , // " ++ [128512]%N ++ runes_of_ascii " emoji
-65535
-://x
-calculatedFrom , } , }
-")).
-Eval vm_compute in ("<<<M1318>>>" ++ check (runes_of_ascii "packet FooBar // c1
-{ u8 a ,
-    // c5
-} // c6
-packet foo_bar // c8a
-  // c8b
-{
-    // c9
-u16
-    // c10
-b , // c12a
-  // c12b
-} // c13
-root // c14
-packet R { // c17a
-  // c17b
-FooBar ,
-    // c19
-foo_bar // c20
-, } ")).
-Eval vm_compute in ("<<<M1428>>>" ++ check (runes_of_ascii "packet FooBar {
-    u8 a,
-    // c5
-}// c6
-
-packet foo_bar {
-    // c9
-    u16 b,// c12a
-    // c12b
-}// c13
-
-root packet R {
-    // c17a
-    // c17b
-    FooBar,
-    // c19
-    foo_bar,
+    ] trueish ,matchKey `100% of %d` ,
+    } options { x_y_z = //x
+false /// triple
+;// " ++ [128512]%N ++ runes_of_ascii " emoji
+Z9_ = 4294967296 chars =""packet"" // packet A { u8 x, }
+; Packet
+= ""it's"" ;// trailing space 
 }")).
-Eval vm_compute in ("<<<M1561>>>" ++ check (runes_of_ascii "
+Eval vm_compute in ("<<<M447>>>" ++ check (runes_of_ascii "packet
+    asx { @calculatedFrom(
+""""  ) @tag( 255 )repeat
+// packet A { u8 x, }
+// trailing space 
+int16 u8x
+, ,
+@tag(
+    //
+    007 )
+    @tag( 0
+    /// triple
+    ) @tag( 1) u
+    @lengthOf( T ),
+// `tick` ""quote"" 'q'
+//x
+} // " ++ [128512]%N ++ runes_of_ascii " emoji")).
+Eval vm_compute in ("<<<M408>>>" ++ check (runes_of_ascii "packet
+    asx { @calculatedFrom(
+)  """" @tag( 255 )repeat
+// packet A { u8 x, }
+// trailing space 
+int16 u8x
+,
+@tag(
+    //
+    007 )
+    @tag( 0
+    /// triple
+    ) @tag( 1) u
+    @lengthOf( T ),
+// `tick` ""quote"" 'q'
+//x
+} // " ++ [128512]%N ++ runes_of_ascii " emoji")).
+Eval vm_compute in ("<<<M1475>>>" ++ check (runes_of_ascii "
+options{
+FixedStringPadChar
+    =
 
-  packet
+'0'
 
-    A { match  k
+    ; }	packet
+    Q	{ 
+zchar[4]  z, 
+@rightPad (
 
-    as
+    '\x00') 
+char[
+    3 
+]
+    n ,
+char[ 5
 
-n
-{ 
-[
-
-    1
-,  ""bb"" 
-,007	,	""d"" , 5 
-, ""f""
-
-    ,
-
-    7 
-,""h""  , 
-9
-
-    ,
-""j"", 11
-] :	B
-
-    2
-
-:
-    C
-	}
+    ]d,}
+    root packet 
+R
+{ Q ,zchar[	8
+]
+top
 	, 
-}")).
-Eval vm_compute in ("<<<M491>>>" ++ check (runes_of_ascii "packet uint8x
-{ match pack
-    as msg_type	{
-    0123456789 :	float
-}
-,
-} packet //	t
-a1
-    { } options {packetx packetx
-    = '\x00'	; u128= ""a	b""  ; }
-")).
-Eval vm_compute in ("<<<M416>>>" ++ check (runes_of_ascii "packet uint8x
-{ match pack
-    as as msg_type	{
-    0123456789 :	float
-}
-,
-} packet //	t
-a1
-    { } options {packetx
-    = '\x00'	; u128= ""a	b""  ; }
-")).
-Eval vm_compute in ("<<<M1707>>>" ++ check (runes_of_ascii "packet string_ {
-    @lengthOf(float)
-    // @lengthOf(
-    BodyLength {
-        match uint8x as i64_ {
-            0123456789 : As,
-        },
-    },
-}")).
-Eval vm_compute in ("<<<M467>>>" ++ check (runes_of_ascii "packet uint8x
-{ match pack
-    as msg_type	{
-    0123456789 :	float
-}
-,
-} packet //	t
-{
-    a1 } options {packetx
-    = '\x00'	; u128= ""a	b""  ; }
-")).
-Eval vm_compute in ("<<<M530>>>" ++ check (runes_of_ascii "packet uint8x
-{ match pack
-    as msg_type	{
-    0123456789 :	float
-}
-,
-} packet //	t
-a1
-    { } options {packetx
-    = '\x00'	; u128= ""a	b""  ; 
-")).
-Eval vm_compute in ("<<<M405>>>" ++ check (runes_of_ascii "packet uint8x
-{  pack
-    as msg_type	{
-    0123456789 :	float
-}
-,
-} packet //	t
-a1
-    { } options {packetx
-    = '\x00'	; u128= ""a	b""  ; }
-")).
-Eval vm_compute in ("<<<M490>>>" ++ check (runes_of_ascii "packet uint8x
-{ match pack
-    as msg_type	{
-    0123456789 :	float
-}
-,
-} packet //	t
-a1
-    { } options {
-    = '\x00'	; u128= ""a	b""  ; }
-")).
-Eval vm_compute in ("<<<M646>>>" ++ check (runes_of_ascii "// @lengthOf(
-packet i8i8 { u128 o , }
-options { MetaDataX = true;
-    BodyLength =""packet"" x_y_z= 
-crc //x
-= ""abc"" ;
-    msg_type =
-i16 }")).
-Eval vm_compute in ("<<<M1855>>>" ++ check (runes_of_ascii "
-MetaData
-leftPad
+repeat zchar[
+2
+]
+zs
 
-{
-chars
-MetaDataX
-, }packet 
-repeatCount	{
-char[255 // c
-  	]
-uint8x `" ++ [233]%N ++ runes_of_ascii "`
+    ,
 
+    }
+")).
+Eval vm_compute in ("<<<M387>>>" ++ check (runes_of_ascii "
+    asx { @calculatedFrom(
+""""  ) @tag( 255 )repeat
+// packet A { u8 x, }
+// trailing space 
+int16 u8x
 ,
-} 
-MetaData pack	{
-    As Foo ,
-}")).
-Eval vm_compute in ("<<<M1935>>>" ++ check (runes_of_ascii "packet A {
+@tag(
+    //
+    007 )
+    @tag( 0
+    /// triple
+    ) @tag( 1) u
+    @lengthOf( T ),
+// `tick` ""quote"" 'q'
+//x
+} // " ++ [128512]%N ++ runes_of_ascii " emoji")).
+Eval vm_compute in ("<<<M262>>>" ++ check (runes_of_ascii "root  packet int {  match u128 as BodyLength
+    { 00
+    :crc //x
+0123456789 : BodyLength [
+10
+,4294967296 ,4294967296 , 7 ] :
+u128 ""a	b""
+:len
+,42: metadata
+, 0 : Foo , }
+, zchar[ 42 ] x	`say ""hi""` // c
+,
+}
+")).
+Eval vm_compute in ("<<<M1317>>>" ++ check (runes_of_ascii "// top
+packet
+    // c0
+orderItem { // c2a
+  // c2b
+u8 // c3
+a , }
+    // c6
+root
+    // c7
+packet // c8a
+  // c8b
+newOrder { // c10
+orderItem ,
+    // c12
+u8 x // c14a
+  // c14b
+, // c15
+} ")).
+Eval vm_compute in ("<<<M602>>>" ++ check (runes_of_ascii "MetaData u
+    { } MetaData o
+{ float uint8x
+`100% of %d` ,repeatCount repeatCount u8x, string_ leftPad
+, i32
+    Foo , int64 x `two words` , calculatedFrom
+stringy `a\` ,
+}
+")).
+Eval vm_compute in ("<<<M684>>>" ++ check (runes_of_ascii "MetaData u
+    { } MetaData o
+{ float uint8x
+`100% of %d` ,repeatCount u8x, string_ leftPad
+, i32
+    Foo , int64 x `two words` , calculatedFrom
+stringy `a\` repeat
+}
+")).
+Eval vm_compute in ("<<<M687>>>" ++ check (runes_of_ascii "MetaData u
+    { } MetaData o
+{ float uint8x
+`100% of %d` ,repeatCount u8x, string_ leftPad
+, i32
+    Foo , int64 x `two words` , calculatedFrom
+stringy `a\` ,
+} }
+")).
+Eval vm_compute in ("<<<M593>>>" ++ check (runes_of_ascii "MetaData u
+    { } MetaData o
+{ float uint8x
+, `100% of %d`repeatCount u8x, string_ leftPad
+, i32
+    Foo , int64 x `two words` , calculatedFrom
+stringy `a\` ,
+}
+")).
+Eval vm_compute in ("<<<M624>>>" ++ check (runes_of_ascii "MetaData u
+    { } MetaData o
+{ float uint8x
+`100% of %d` ,repeatCount u8x, string_ uint64
+, i32
+    Foo , int64 x `two words` , calculatedFrom
+stringy `a\` ,
+}
+")).
+Eval vm_compute in ("<<<M685>>>" ++ check (runes_of_ascii "MetaData u
+    { } MetaData o
+{ float uint8x
+`100% of %d` ,repeatCount u8x, string_ leftPad
+, i32
+    Foo , int64 x `two words` , calculatedFrom
+stringy `a\`")).
+Eval vm_compute in ("<<<M211>>>" ++ check (runes_of_ascii "
+MetaData float { }packet
+    x
+    {
+// 50% %s
+// a // b
+float@calculatedFrom( ""\" ++ [233]%N ++ runes_of_ascii """
+) , uint32 body ,} options { repeatCount
+= float32 } // @lengthOf(")).
+Eval vm_compute in ("<<<M225>>>" ++ check (runes_of_ascii "options {  i8i8= uint8 pack =false T  = false ; msg_type
+// `tick` ""quote"" 'q'
+// c
+= 0 falsey = char[ 42 ]// trailing space 
+; }
+// " ++ [128512]%N ++ runes_of_ascii " emoji
+")).
+Eval vm_compute in ("<<<M1841>>>" ++ check (runes_of_ascii "packet A {
     match k as n {
         [
-            1, 22, 007, 4, 5,
-            66, 7, 8
+            ""a"", 22, ""c c"", 4, ""e"",
+            66, ""g""
         ] : B,
         2 : C,
     },
 }")).
-Eval vm_compute in ("<<<M1767>>>" ++ check (runes_of_ascii "
-packet A{
-	match
-k
+Eval vm_compute in ("<<<M1922>>>" ++ check (runes_of_ascii "
 
-    as n
-{ 
-[	""a"",
+  options
+{ charz
+    =
+	""a\\"" 
+    // trailing space 
+    rootA
+= 
+""packet"" ;	x
+	=
 
-""bb""
-
-    , ""c c"" ,""d"" 
-,
-	""e"", ""f"", ""g""
-	,""h""] : B
-,
-2:
-    C
-    }
-
-, } ")).
-Eval vm_compute in ("<<<M1161>>>" ++ check (runes_of_ascii "MetaData leftPad { chars MetaDataX , } packet repeatCount { // c
-char[ 255 ] uint8x `" ++ [233]%N ++ runes_of_ascii "` , } MetaData pack { As Foo , }")).
-Eval vm_compute in ("<<<M906>>>" ++ check (runes_of_ascii "packet A {
-  match k as n {
-    [""a"", ""bb"", ""c c"", ""d"", ""e"", ""f"", ""g"", ""h"", ""i"", ""j"", ""k"", ""l""] : B,
-    2 : C
-  },
-}")).
-Eval vm_compute in ("<<<M315>>>" ++ check (runes_of_ascii "packet Foo{ tag roots ,
-    // `tick` ""quote"" 'q'
-    i64_, @calculatedFrom( ""packet"" ) uint32 MetaDataX
-, }
+""a	b""
+	;
+    // " ++ [27880; 37322]%N ++ runes_of_ascii "
+	rootA = string	}
 ")).
-Eval vm_compute in ("<<<M1285>>>" ++ check (runes_of_ascii "// top
-root
-    // c0
-packet // c1a
-  // c1b
-P
-    // c2
-{ // c3
-string s // c5a
-  // c5b
-,
-    // c6
-} ")).
-Eval vm_compute in ("<<<M956>>>" ++ check (runes_of_ascii "packet A {
-    Inner {
-        u8 x `
-x`,
-        Deep {
-            u8 y `
-x`,
-        },
-    },
-}")).
-Eval vm_compute in ("<<<M199>>>" ++ check (runes_of_ascii "packet falsey { string a1 @lengthOf( packetx ) , }
-packet	int { Header	@lengthOf( stringy)
-, }")).
-Eval vm_compute in ("<<<M892>>>" ++ check (runes_of_ascii "packet A {
-  match k as n {
-    [1, 22, 007, 4, 5, 66, 7, 8, 9, 10, 11] : B
-    2 : C
-  },
-}")).
-Eval vm_compute in ("<<<M636>>>" ++ check (runes_of_ascii "
-packet
-    asx {match u128 as lengthOf
-{
-//	t
-// `ti/ck` ""quote"" 'q'
-255 : x ,
-    } ,	}")).
-Eval vm_compute in ("<<<M562>>>" ++ check (runes_of_ascii "
-packet
-    asx match u128 as lengthOf
-{
-//	t
-// `tick` ""quote"" 'q'
-255 : x ,
-    } ,	}")).
-Eval vm_compute in ("<<<M570>>>" ++ check (runes_of_ascii "
-packet
-    asx {{ u128 as lengthOf
-{
-//	t
-// `tick` ""quote"" 'q'
-255 : x ,
-    } ,	}")).
-Eval vm_compute in ("<<<M852>>>" ++ check (runes_of_ascii "packet A {
-  match k as n {
-    [1, 22, 007, 4, 5, 66, 7, 8] : B,
-    2 : C
-  },
-}")).
-Eval vm_compute in ("<<<M1878>>>" ++ check (runes_of_ascii "
+Eval vm_compute in ("<<<M1720>>>" ++ check (runes_of_ascii "
+packet	A  {match
+    k
 
-  packet A { match 
-k as
-n  { [
-	""a"" ,	22
-
-, 
-""c c""]
-    : B, 2
-	:C 
-}
-	,}
-")).
-Eval vm_compute in ("<<<M821>>>" ++ check (runes_of_ascii "packet A {
-  match k as n {
-    [1, 22, ""c c"", 4, 5] : B,
-    2 : C
-  },
-}")).
-Eval vm_compute in ("<<<M809>>>" ++ check (runes_of_ascii "packet A {
-  match k as n {
-    [1, 22, ""c c"", 4] : B
-    2 : C
-  },
-}")).
-Eval vm_compute in ("<<<M788>>>" ++ check (runes_of_ascii "packet A {
-  match k as n {
-    [1, 22, 007] : B
-    2 : C
-  },
-}")).
-Eval vm_compute in ("<<<M1459>>>" ++ check (runes_of_ascii "MetaData M {
-    u8 x `a
-        b`,
-    T t `a
-        b`,
-}")).
-Eval vm_compute in ("<<<M767>>>" ++ check (runes_of_ascii "@rightPad char[] string u16 @tag( @lengthOf( as packet ,")).
-Eval vm_compute in ("<<<M1201>>>" ++ check (runes_of_ascii "packet body // c
-{ i32 f32a `{ , }` , } options { }")).
-Eval vm_compute in ("<<<M654>>>" ++ check (runes_of_ascii "// @lengthOf(
-packet i8i8 { u128 o , }
-options {")).
-Eval vm_compute in ("<<<M1882>>>" ++ check (runes_of_ascii "
-packet  A{u8  x
-
-    `d" ++ [160]%N ++ runes_of_ascii "`
-,  // c" ++ [160]%N ++ runes_of_ascii "
-}
-
-")).
-Eval vm_compute in ("<<<M1075>>>" ++ check (runes_of_ascii "MetaData M {
-}// c
-MetaData N {
-}// d")).
-Eval vm_compute in ("<<<M946>>>" ++ check (runes_of_ascii "root packet A {
-    u8 x `a
-
-b`,
-}")).
-Eval vm_compute in ("<<<M1513>>>" ++ check (runes_of_ascii "root packet P {
-    string s,
-}")).
-Eval vm_compute in ("<<<M1782>>>" ++ check (runes_of_ascii "
-// c" ++ [12]%N ++ runes_of_ascii "
-packet A
+as	n
 
     {
-} ")).
-Eval vm_compute in ("<<<M1730>>>" ++ check (runes_of_ascii "packet
 
-zchar
+[
+    ""a"" ,22 ,""c c""
+	,
+    4 , ""e""  , 66
 
-    { 
+,  ""g""
+
+    ] : B
+2:	C }
+
+,
+
 }")).
-Eval vm_compute in ("<<<M238>>>" ++ check (runes_of_ascii "root packet chars
-{}
-")).
-Eval vm_compute in ("<<<M1132>>>" ++ check (runes_of_ascii "MetaData u // c
-{ }")).
-Eval vm_compute in ("<<<M1026>>>" ++ check (runes_of_ascii "packet A {
-}
-// c" ++ [8287]%N)).
-Eval vm_compute in ("<<<M1009>>>" ++ check (runes_of_ascii "packet A {
-}// c" ++ [8232]%N)).
-Eval vm_compute in ("<<<M1072>>>" ++ check (runes_of_ascii "
+Eval vm_compute in ("<<<M1220>>>" ++ check (runes_of_ascii "options { } options { MetaDataX = char ;
+// c
+} MetaData Pad { i8 metadata , string stringy , int8 As `{ , }` , }")).
+Eval vm_compute in ("<<<M362>>>" ++ check (runes_of_ascii "options { }
+options {
+    _x=
+    ""`tick`""; matchKey
+=""it's"" ; options1= u16; stringy =	true }packet x_y_z{ }
 
-  packet A {}")).
-Eval vm_compute in ("<<<M1040>>>" ++ check (runes_of_ascii "// c 	")).
-Eval vm_compute in ("<<<M769>>>" ++ check ([12]%N ++ runes_of_ascii "7" ++ [30]%N)).
+")).
+Eval vm_compute in ("<<<M1290>>>" ++ check (runes_of_ascii "options {
+    LittleEndian = true;
+}
+root packet P {
+    u16 a,
+    u32 Sum @calculatedFrom(""CR\
+C32""),
+}
+")).
+Eval vm_compute in ("<<<M1328>>>" ++ check (runes_of_ascii "packet FooBar {
+    u8 a,
+}
+packet foo_bar {
+    u16 b,
+}
+root packet R {
+    FooBar,
+    foo_bar,
+}
+")).
+Eval vm_compute in ("<<<M1626>>>" ++ check (runes_of_ascii "
+packet A{
+	Inner
+
+    {	match 
+k	as
+
+n {
+	[
+	1
+
+    ,
+    22
+,	007
+
+,4 ] : B
+, 
+} ,
+
+} ,}
+
+")).
+Eval vm_compute in ("<<<M140>>>" ++ check (runes_of_ascii "packet f32a
+{
+    @tag( 007	)
+    // " ++ [27880; 37322]%N ++ runes_of_ascii "
+    i8i8
+Logon , }  options {} packet
+stringy {} //")).
+Eval vm_compute in ("<<<M1531>>>" ++ check (runes_of_ascii "
+// `tick` ""quote"" 'q'
+  options 
+{ stringy 
+=
+	""\" ++ [233]%N ++ runes_of_ascii """float =  """ ++ [233]%N ++ runes_of_ascii "t" ++ [233]%N ++ runes_of_ascii """
+trueish
+
+= u8
+    } ")).
+Eval vm_compute in ("<<<M1313>>>" ++ check (runes_of_ascii "packet order_item {
+    u8 a,
+}
+root packet new_order {
+    order_item,
+    u8 x,
+}
+")).
+Eval vm_compute in ("<<<M829>>>" ++ check (runes_of_ascii "packet A {
+  match k as n {
+    [1, ""bb"", 007, ""d"", 5, ""f""] : B
+    2 : C
+  },
+}")).
+Eval vm_compute in ("<<<M1791>>>" ++ check (runes_of_ascii "packet A {
+    match k as n {
+        [""a"", 22] : B,
+        2 : C,
+    },
+}")).
+Eval vm_compute in ("<<<M1570>>>" ++ check (runes_of_ascii "
+
+  root
+
+    packet
+
+P {
+    repeat
+
+char
+cs
+,
+    u8
+
+    x ,
+}")).
+Eval vm_compute in ("<<<M799>>>" ++ check (runes_of_ascii "packet A {
+  match k as n {
+    [1, 22, 007, 4] : B
+    2 : C
+  },
+}")).
+Eval vm_compute in ("<<<M1268>>>" ++ check (runes_of_ascii "root packet
+    P
+
+{
+
+    hdr  {
+
+u8 a
+	, }
+,  u8
+
+x
+    ,}
+")).
+Eval vm_compute in ("<<<M440>>>" ++ check (runes_of_ascii "packet
+    asx { @calculatedFrom(
+""""  ) @tag( 255 )repeat")).
+Eval vm_compute in ("<<<M1112>>>" ++ check (runes_of_ascii "packet A { repeat // a
+ B // b
+ b // c
+ `d` // e
+ , }")).
+Eval vm_compute in ("<<<M1861>>>" ++ check (runes_of_ascii "packet  A{
+
+repeat f64
+A
+	,
+}  // @lengthOf(
+")).
+Eval vm_compute in ("<<<M1563>>>" ++ check (runes_of_ascii "  packet
+A	{
+u8
+x `d" ++ [133]%N ++ runes_of_ascii "`
+
+    ,// c" ++ [133]%N ++ runes_of_ascii "
+
+	}")).
+Eval vm_compute in ("<<<M1297>>>" ++ check (runes_of_ascii "  root 
+packet 
+P 
+{
+	string
+	s,  }
+
+")).
+Eval vm_compute in ("<<<M1111>>>" ++ check (runes_of_ascii "root // a
+ packet // b
+ A // c
+ { }")).
+Eval vm_compute in ("<<<M1405>>>" ++ check (runes_of_ascii "packet A {
+    repeat B b `d`,
+}")).
+Eval vm_compute in ("<<<M1052>>>" ++ check (runes_of_ascii "packet A {
+ u8 x `d" ++ [11]%N ++ runes_of_ascii "`, // c" ++ [11]%N ++ runes_of_ascii "
+}")).
+Eval vm_compute in ("<<<M213>>>" ++ check (runes_of_ascii "  MetaData Packet
+    { }
+")).
+Eval vm_compute in ("<<<M1147>>>" ++ check (runes_of_ascii "root packet a1 // c
+{ }")).
+Eval vm_compute in ("<<<M1427>>>" ++ check (runes_of_ascii "
+packet
+A{ 
+}// c x
+")).
+Eval vm_compute in ("<<<M1055>>>" ++ check (runes_of_ascii "packet A {
+}
+// c" ++ [12]%N)).
+Eval vm_compute in ("<<<M1063>>>" ++ check (runes_of_ascii "packet A {
+}// c" ++ [8203]%N)).
+Eval vm_compute in ("<<<M1627>>>" ++ check (runes_of_ascii "// @lengthOf(")).
+Eval vm_compute in ("<<<M1034>>>" ++ check (runes_of_ascii "// c" ++ [8233]%N)).
